@@ -104,7 +104,11 @@ theorem task_registry_tracks_every_task :
     (Coop.selfStateWritten Skeletons.sk_async_tasks__AsyncTasks_add_task,
      (Coop.actions .call Skeletons.sk_async_tasks__AsyncTasks_add_task).filter Coop.isSelfState) = ([], ["self._tasks.append"]) ∧
     "task.cancel" ∈ Coop.actions .call Skeletons.sk_async_tasks__AsyncTasks_cancel_key_tasks ∧
-    Coop.selfStateWritten Skeletons.sk_async_tasks__AsyncTasks_cancel_key_tasks = [] := by decide +kernel
+    Coop.selfStateWritten Skeletons.sk_async_tasks__AsyncTasks_cancel_key_tasks = [] ∧
+    -- the housekeeping task rewrites the registry, and the only place where it can be suspended is its sleep: it never yields
+    -- between looking at the registry and replacing it (a task registered meanwhile cannot be dropped)
+    Coop.awaitsIn Skeletons.sk_async_tasks__AsyncTasks__tidy = ["config_sleep"] ∧
+    Coop.selfStateWritten Skeletons.sk_async_tasks__AsyncTasks__tidy = ["self._tasks"] := by decide +kernel
 
 /-- **discovery gives its endpoint back however it ends**: over the regenerated skeleton of `discover()`, in every trace - normal
 return, exception, cancellation at any await - the endpoint obtained from `create_datagram_endpoint` is closed before the coroutine
